@@ -255,11 +255,11 @@ def firstExtractor (env : Env) : List Nat → Option (Exc → Nat → Except Exc
     | some f => some f
     | none => firstExtractor env cs
 
-/-- `TRACEBACK_MESSAGE(reason=exception, traceback=tb, exception=typ).bind(**extra)` after its own
-serializer ran (`safeunicode`, `safeunicode`, qualified class name; it cannot fail).
-Trusted base: extractor fields do not collide with these three keys. -/
+/-- `TRACEBACK_MESSAGE(**extra).bind(reason=exception, traceback=tb, exception=typ)` after its own
+serializer ran (`safeunicode`, `safeunicode`, qualified class name; it cannot fail): the extracted
+fields first, the traceback's own three fields over them. -/
 def tracebackFields (env : Env) (e : Exc) (extra : Fields) : Fields :=
-  Fields.update [("reason", .str (e.safeStr env)), ("traceback", .tbtext e), ("exception", .str (e.qual env))] extra
+  Fields.update extra [("reason", .str (e.safeStr env)), ("traceback", .tbtext e), ("exception", .str (e.qual env))]
 
 /-- `get_fields_for_exception(logger, e)`: the extractor registered for the nearest class in the
 MRO; if it raises, `except: write_traceback(logger); return {}` — and while that failure is being
